@@ -6,12 +6,48 @@ HERE = os.path.dirname(os.path.abspath(__file__))
 props = [json.loads(l) for l in open(os.path.join(HERE, "properties.jsonl"))]
 
 CHECKS = {
+ "C01": dict(
+  category="exploration",
+  text="Every well-typed sequence up to a length bound over a ~50-step alphabet on fixed graphs (exhaustive) plus random typed-grammar traversals and spliced ill-typed ones on random graphs, run on kvgraph/Badger and compared with a reference interpreter written from the documentation (multiset equality; arithmetic + sub-multiset relations for limit/skip/range; key-set relations for distinct; accept/reject for typing).",
+  design_ref="DESIGN.md §3 C01",
+  note="Trusted: internal/model/interp.go (reference semantics and typing) and its list of unspecified shapes (not judged). Row order never asserted. Badger only here; other drivers are C10's.",
+  technique="property-based testing: exhaustive small-scope enumeration + rapid typed-grammar generation vs. reference interpreter"),
+ "C02": dict(
+  category="exploration",
+  text="Differential: production compiler (index rewrite + load elision) vs. a literal pipeline built from core.StatementProcessor with every step forced to load, on kvgraph/Badger and on an in-memory backend that honours load=false like psql/mongo; plus count() vs row-count law and spelling equivalence of label/id filters.",
+  design_ref="DESIGN.md §3 C02",
+  note="Trusted: internal/memgraph implements the gdbi load contract as psql/graph.go does; the literal pipeline is the meaning of 'executed literally'.",
+  technique="property-based testing: differential + metamorphic relations over rapid-generated traversals"),
+ "C03": dict(
+  category="exploration",
+  text="Histories of the mutating gdbi API over a small id/label universe (every sequence to a depth bound over a 12-operation alphabet, random histories to 30 steps) on kvgraph/Badger; after every step the full observation of every graph through the read API is compared with an abstract last-write-wins model, plus return values and the timestamp rule.",
+  design_ref="DESIGN.md §3 C03",
+  note="Trusted: the abstract model in internal/hist and the observation in internal/obs. Batches at the gdbi level contain only valid elements (callers validate first).",
+  technique="model-based (stateful) property testing: exhaustive + rapid histories vs. abstract graph model"),
+ "C05": dict(
+  category="exploration",
+  text="Method table enumerated from the generated service descriptors; every method x transport (real grpc.Server interceptor chain, in-process gateway clients) x 24 credential/policy scenarios exhaustively, plus random Casbin policies; spy handlers record whether the handler ran; a live GripServer level checks effects over gRPC and HTTP.",
+  design_ref="DESIGN.md §3 C05",
+  note="Trusted: the re-implemented matcher of test/model.conf; operation class per method pinned to accounts.MethodMap (documentation names none).",
+  technique="property-based testing: exhaustive method matrix + rapid policies vs. re-implemented access matcher"),
  "C08": dict(
   category="exploration",
   text="Exhaustive operator x key-form x value x argument grid (≈34k cells) plus random Boolean trees, each judged against a reference evaluator written from the documentation and against algebraic laws, directly on logic.MatchesHasExpression and end-to-end through V().has() on a stored Badger graph. The grid is finite and fully enumerated; trees are sampled.",
   design_ref="DESIGN.md §3 C08",
   note="Trusted: the reference evaluator (internal/model/expr.go) and the list of cells it declares undocumented (not judged). Values limited to what structpb carries.",
   technique="property-based testing: exhaustive small-scope grid + rapid random trees vs. reference evaluator and metamorphic Boolean laws"),
+ "C14": dict(
+  category="exploration",
+  text="(a) typing agreement of the core and Mongo compilers over every statement sequence to length 4 over an ~80-step alphabet plus random ones; (b) the emitted $match document, BSON round-tripped and evaluated by a small interpreter of MongoDB query semantics over scalar documents, vs. logic.MatchesHasExpression, over an exhaustive operator x key x argument x negation grid and random trees.",
+  design_ref="DESIGN.md §3 C14",
+  note="Trusted: the ~150-line MongoDB match interpreter (rules listed in harness/c14/findings/overview.md); no live MongoDB. Hook: mongo/export_verif.go.",
+  technique="property-based testing: differential typing + translation check of emitted filters against a reference interpreter"),
+ "C20": dict(
+  category="exploration",
+  text="Every psql / existing-sql entry point that takes an id, label, label list or graph name (table asserted complete by reflection over the method sets) x 39 hostile strings exhaustively plus random fragment concatenations; statements are captured by a recording database/sql driver, tokenised by a PostgreSQL lexer, and compared with the benign twin: token structure must be identical and the client string must appear only as one literal/identifier or as a bound argument.",
+  design_ref="DESIGN.md §3 C20",
+  note="Trusted: the harness PostgreSQL lexer and the canned result sets of the recording driver. MySQL quoting rules for existing-sql are not modelled. Hooks: psql/export_verif.go, existing-sql/export_verif.go.",
+  technique="property-based testing: metamorphic token-structure relation over recorded SQL, exhaustive + rapid hostile strings"),
 }
 NOT_YET = "check not built yet in this session (planned in DESIGN.md §3); not claimed"
 
@@ -54,6 +90,6 @@ def main():
     print("MANIFEST.json: %d checks, %d not claimed" % (len(checks), len(na)))
 
 NA = {}
-HOOK_COMMITS = []
+HOOK_COMMITS = ["580a25d", "27abbf0"]
 if __name__ == "__main__":
     main()
